@@ -499,12 +499,8 @@ func (x *Decimal) Float32() (float32, Accuracy) {
 		return float32(f), a
 	}
 	z := x.Float(new(big.Float).SetPrec(32))
-	f, a := z.Float32()
-	// If big.Float -> float64 conversion is accurate, use Decimal->Float accuracy.
-	if a == big.Exact {
-		a = z.Acc()
-	}
-	return f, Accuracy(a)
+	f, _ := z.Float32()
+	return f, x.floatAcc(float64(f))
 }
 
 // Float64 returns the float64 value nearest to x. If x is too small to be
@@ -517,12 +513,22 @@ func (x *Decimal) Float64() (float64, Accuracy) {
 		return f, a
 	}
 	z := x.Float(new(big.Float).SetPrec(64))
-	f, a := z.Float64()
-	// If big.Float -> float64 conversion is accurate, use Decimal->Float accuracy.
-	if a == big.Exact {
-		a = z.Acc()
+	f, _ := z.Float64()
+	return f, x.floatAcc(f)
+}
+
+// floatAcc returns the accuracy of f as a conversion of x: the sign of
+// f - x. The intermediate conversions report the accuracy of their
+// last rounding only, so it is determined by an exact comparison.
+func (x *Decimal) floatAcc(f float64) Accuracy {
+	if x.form != finite {
+		return Exact
 	}
-	return f, Accuracy(a)
+	if math.IsInf(f, 0) {
+		return makeAcc(f > 0)
+	}
+	// every finite float64 has at most 767 significant decimal digits
+	return Accuracy(new(Decimal).SetPrec(800).SetFloat64(f).Cmp(x))
 }
 
 // outOfFloatRange handles finite x far beyond the range of float64 (and
